@@ -14,11 +14,15 @@ RULE = ("constructors: the full product class x language x entity_substitution x
         "None, library and user functions, objects}; rendering: (a) three probe trees x the product class x 4 substitution "
         "functions x 3 void prefixes x 3 cdata sets x 2 x 6 indents x {decode, prettify}; (b) every tree of <= 3 (quick) / "
         "4 (thorough) nodes over {text, comment, p, pre, script, void br, hidden div} x six formatter specifications x "
-        "{decode, prettify, decode_contents}; (b') name case: sibling tags whose names differ only by case (Code/code/CODE, "
+        "{decode, prettify, decode_contents at level 1, prettify(encoding, formatter), encode(encoding, 1, formatter), "
+        "encode_contents(0, encoding, formatter)}; (b') name case: sibling tags whose names differ only by case (Code/code/CODE, "
         "script/SCRIPT, Style, pre/Pre) x cdata_containing_tags naming one spelling x flavour x class x way of passing x "
         "{decode, prettify, each string's output_ready}; (b'') parsed documents with <meta charset> / http-equiv content-type "
         "declarations (values of the charset-placeholder classes) x names / functions / objects of the three classes x "
-        "{decode with default / no / another eventual encoding, encode(utf-8 / utf-16), prettify, *_contents}; (c) seeded random trees (every string class, prefixed / void / hidden / "
+        "{decode with default / no / another eventual encoding, encode(utf-8 / utf-16), prettify, *_contents}; (b3) histories: a flavour-less string / Tag rendered or copied in a tree of one flavour, then appended to / "
+        "put in place of a child of a tree of the other flavour (Tag trees and parsed soups) or only extracted, then rendered "
+        "by name / function / object through every entry point; (b4) parentless strings of every class through "
+        "output_ready / format_string / Formatter.substitute, and as attribute values; (c) seeded random trees (every string class, prefixed / void / hidden / "
         "whitespace-preserving elements, attribute values None / '' / str with quotes / list / tuple / number, XML and HTML "
         "flavours, parsed documents) x random formatter specification (object / name / function) x entry point (decode, "
         "prettify, decode_contents, encode, encode_contents, string output_ready) x indent level; attribute order: every "
@@ -36,7 +40,8 @@ ASSUMPTIONS = [
     "str(value) of non-string attribute values is supplied by the harness (interpreter's formatting)",
     "independence from hash randomisation is measured (subprocess runs under several PYTHONHASHSEED values), not proved: "
     "the theorems remove its two sources in the code (attribute order, alternation order)",
-    "attribute values that are NavigableString objects are not generated",
+    "attribute values that are NavigableString objects are generated parentless only (one attached to a cdata-containing tag "
+    "would be left verbatim by the code; the property is silent on that)",
     "<meta> charset placeholders (CharsetMetaAttributeValue / ContentMetaAttributeValue): the encoding step that precedes the "
     "formatter in _format_tag belongs to C08; the harness restates it independently (charset -> the eventual encoding, "
     "content -> its charset= part rewritten; Python-specific encodings not generated) and the model receives the resulting "
@@ -115,7 +120,7 @@ def case_ev(case):
     """the eventual encoding the call is made with: decode()/decode_contents() default to utf-8 (None = no output
     encoding in mind), prettify() uses the default, encode(enc) passes enc on"""
     e = case["entry"]
-    if e in ("encode", "encode_contents"):
+    if e in ("encode", "encode_contents", "prettify_enc"):
         return case.get("encoding", "utf-8")
     if e in ("decode", "decode_contents"):
         return case["eventual"] if "eventual" in case else "utf-8"
@@ -129,6 +134,8 @@ def value_text(v, ev="utf-8"):
     t = v[0]
     if t == "none":
         return None
+    if t == "navstr":
+        return v[1]                 # a parentless string stored as a value is a value like any other
     if t == "charset":
         return v[1] if ev is None else ev
     if t == "content":
@@ -272,7 +279,7 @@ def enc_value(v, ev="utf-8"):
     t = v[0]
     if t == "none":
         return [0]
-    if t in ("charset", "content"):
+    if t in ("charset", "content", "navstr"):
         return [1, value_text(v, ev)]        # the model sees the value after the encoding step (a str)
     if t == "str":
         return [1, v[1]]
@@ -339,19 +346,27 @@ def subtree(case):
 def case_shape(case):
     """entry point -> (level, include self)"""
     e = case["entry"]
-    if e == "prettify":
+    if e in ("prettify", "prettify_enc"):
         return 0, True
     if e in ("decode", "encode"):
         return case["level"], True
     return case["level"], False
 
 
+STR_ENTRIES = ("str_output_ready", "str_format_string", "str_substitute")
+
+
+def str_cls(case, sub):
+    """format_string / Formatter.substitute know nothing of string classes: no delimiters, the result is used"""
+    return sub["cls"] if case["entry"] == "str_output_ready" else 0
+
+
 def enc_case(case):
     sub, chain, parent = subtree(case)
     top = bool(case.get("top_is_xml"))
-    if case["entry"] == "str_output_ready":
+    if case["entry"] in STR_ENTRIES:
         return [15003, enc_env(case["fmt"], sub), [[] if k is None else [k] for k in chain], top,
-                [] if case["fmt"] is None else [enc_spec(case["fmt"])], sub["cls"], sub["text"],
+                [] if case["fmt"] is None else [enc_spec(case["fmt"])], str_cls(case, sub), sub["text"],
                 [] if parent is None else [parent]]
     lvl, incl = case_shape(case)
     soup_xml = bool(case.get("soup")) and case["soup"]["xml"] and not case["path"]
@@ -376,7 +391,7 @@ VALUES = [["none"], ["str", ""], ["str", "v"], ["str", 'say "hi"'], ["str", "it'
           ["list", []], ["tuple", ["u", "t"]], ["int", 5], ["float", 1.5], ["bool", True], ["str", " "], ["obj", "o&<b>"],
           ["str", "javascript:a&b<c"], ["str", "script"], ["str", "style&"], ["str", "&"], ["str", "<"],
           # what a parsed <meta charset=...> / <meta http-equiv=Content-Type content=...> carries
-          ["charset", "ISO-8859-1"], ["charset", "a&b"], ["content", "text/html; charset=koi8-r"],
+          ["navstr", "n&<é>"], ["charset", "ISO-8859-1"], ["charset", "a&b"], ["content", "text/html; charset=koi8-r"],
           ["content", "a&b <c>; charset=x; q='1'"], ["content", "no declaration here é"]]
 TEXTS = ["text", " padded \n", "", "   ", "a<b&c>d", "é ≧̸ ≧", "&amp; &lt;", " x ", "]]>", "x\ny", "tea", "\t",
          "e a\"'", "AT&T &nosuch; &#233;", "<⃒ ="]
@@ -473,7 +488,7 @@ def nontrivial(case):
     s = case["fmt"]
     if s is None:
         return False
-    if case["entry"] == "prettify" or case.get("level") is not None:
+    if case["entry"] in ("prettify", "prettify_enc") or case.get("level") is not None or case.get("_history"):
         return True
     if s["way"] == "object":
         return bool(s["kw"])
@@ -487,13 +502,15 @@ def expected_for(case):
     """documented result of the case: {"out", "exc", "calls"}"""
     sub, chain, parent = subtree(case)
     top = bool(case.get("top_is_xml"))
+    if case["entry"] in STR_ENTRIES:
+        sub = dict(sub, cls=str_cls(case, sub))
     if case["fmt"] is None:
         pre, suf = DOC_AFFIX[sub["cls"]]
         return {"out": pre + sub["text"] + suf, "exc": None, "calls": []}
     o = doc_resolve(case["fmt"], doc_is_xml(chain, top))
     if o == "KeyError":
         return {"out": None, "exc": "KeyError", "calls": []}
-    if case["entry"] == "str_output_ready":
+    if case["entry"] in STR_ENTRIES:
         holder = {"k": "e", "name": parent if parent is not None else "\0none", "prefix": None, "attrs": [], "cbe": False,
                   "hidden": True, "pw": None, "kids": [sub]}
         if parent is None:
@@ -764,7 +781,8 @@ def small_scope(ctx):
             else:
                 root = E(kind, f)
             for spec in SMALL_SPECS:
-                for entry, lvl in (("decode", None), ("prettify", None), ("decode_contents", 1)):
+                for entry, lvl in (("decode", None), ("prettify", None), ("decode_contents", 1), ("prettify_enc", None),
+                                   ("encode", 1), ("encode_contents", 0)):
                     cases.append({"tree": root, "path": [], "soup": None, "fmt": spec, "entry": entry, "level": lvl})
     ctx.count("small_scope_cases", len(cases))
     check_render(ctx, cases, "small-scope")
@@ -815,6 +833,108 @@ def case_grid(ctx):
     return cases
 
 
+def node_at(tree, path):
+    n = tree
+    for i in path:
+        n = n["kids"][i]
+    return n
+
+
+def make_history(a, path, how, b, dest_path, first):
+    """-> (description of the tree the moved element ends up in, its path there, the history for c15lib.run_history)"""
+    x = copy.deepcopy(node_at(a["tree"], path))
+    h = {"a": a, "path": list(path), "first": first, "how": how, "b": b if how in ("append", "replace") else None,
+         "dest_path": list(dest_path)}
+    if how == "extract":
+        return x, [], h
+    if how == "stay":
+        return a["tree"], list(path), h
+    tree = copy.deepcopy(b["tree"])
+    dest = node_at(tree, dest_path)
+    if how == "append":
+        dest["kids"].append(x)
+        return tree, list(dest_path) + [len(dest["kids"]) - 1], h
+    dest["kids"][0] = x
+    return tree, list(dest_path) + [0], h
+
+
+def tree_of(spec):
+    """{"tree"} or {"soup"} -> the same with "tree" filled in"""
+    if spec.get("soup") and "tree" not in spec:
+        root, _ = L.materialise({"soup": spec["soup"], "path": []})
+        spec = dict(spec, tree=L.describe(root))
+    return spec
+
+
+def move_grid(ctx):
+    """Histories: a flavour-less element (string, Tag made without is_xml) is rendered or copied inside a tree of one
+    flavour, moved into a tree of the other flavour (append / replace_with) or merely extracted, and rendered again by
+    name, by function, by object. Oracle: the formatter is resolved for the tree the element is in now (for a
+    parentless string: the HTML default, and nothing protects it from the substitution function)."""
+    xs = [S(0, "a<b&\u00e9"), S(8, "x<y&"), S(4, "c<&"), E("script", [S(0, "a<b&")], pw=None),
+          E("b", [S(0, "t&<"), E("br", cbe=True, pw=None)], attrs=[["t", ["str", "v&"]], ["e", ["str", ""]]], pw=None)]
+
+    def html_tree(x):
+        return E("div", [E("script", [x], known_xml=False)], known_xml=False)
+
+    def xml_tree(x):
+        return E("root", [E("script", [x], known_xml=True)], known_xml=True)
+    html_dest = [{"tree": E("div", [E("script", [S(0, "old")], known_xml=False), E("p", [], known_xml=False)], known_xml=False)},
+                 tree_of({"soup": {"markup": "<div><script>old</script><p></p></div>", "xml": False}})]
+    xml_dest = [{"tree": E("root", [E("script", [S(0, "old")], known_xml=True), E("item", [], known_xml=True)], known_xml=True, pw=None)},
+                tree_of({"soup": {"markup": "<div><script>old</script><p></p></div>", "xml": True}})]
+    specs = [{"way": "name", "name": n} for n in ("minimal", "html", "html5", None)]
+    specs += [{"way": "function", "f": ["custom", 1]}, {"way": "function", "f": ["lib", "html"]},
+              {"way": "object", "cls": "Formatter", "kw": {"entity_substitution": ["custom", 0]}}]
+    cases = []
+    for x in xs:
+        for to_xml in (False, True):
+            a = {"tree": (html_tree if to_xml else xml_tree)(x)}
+            dests = xml_dest if to_xml else html_dest
+            for b in dests:
+                soup_b = bool(b.get("soup"))
+                pre = [0] if soup_b else []
+                for how, dest_path in (("append", pre + [0]), ("replace", pre + [0]), ("append", pre + [1]), ("extract", [])):
+                    if how == "extract" and b is not dests[0]:
+                        continue
+                    for spec in specs:
+                        entries = STR_ENTRIES if x["k"] == "s" else ("decode", "prettify", "encode", "decode_contents", "prettify_enc")
+                        for entry in entries:
+                            for first in (None, {"action": "copy"},
+                                          {"action": "render", "fmt": spec, "entry": entry, "level": None}):
+                                tree2, path2, h = make_history(a, [0, 0], how, b, dest_path, first)
+                                cases.append({"tree": tree2, "path": path2, "soup": None, "fmt": spec, "entry": entry,
+                                              "level": None, "_history": h})
+    ctx.count("move_history_grid", len(cases))
+    impl = check_render(ctx, cases, "moved-element")
+    k = next(i for i, c in enumerate(cases) if c["_history"]["how"] == "append" and c["fmt"].get("name") == "minimal"
+             and c["_history"]["first"] and c["_history"]["first"]["action"] == "render")
+    ctx.sample({"history": {kk: v for kk, v in cases[k]["_history"].items() if kk != "b"}, "fmt": cases[k]["fmt"],
+                "entry": cases[k]["entry"], "impl": impl[k]["out"]})
+    return cases
+
+
+def lone_strings(ctx):
+    """strings that are in no tree (NavigableString(...), new_string, extracted): every string class x texts x every way of
+    passing a formatter x output_ready / format_string / Formatter.substitute"""
+    specs = [{"way": "name", "name": n} for n in ("minimal", "html", "html5", None)]
+    specs += [{"way": "function", "f": f} for f in (["custom", 0], ["custom", 1], ["lib", "xml"])]
+    specs += [{"way": "object", "cls": c, "kw": kw} for c in ("Formatter", "HTMLFormatter", "XMLFormatter")
+              for kw in ({"entity_substitution": ["custom", 1]},
+                         {"entity_substitution": ["lib", "html"], "cdata_containing_tags": ["set", []]}, {})]
+    cases = []
+    for cls in range(12):
+        for text in ("a<b&\u00e9", " t ", ""):
+            for spec in specs + [None]:
+                for entry in STR_ENTRIES:
+                    if spec is None and entry == "str_substitute":
+                        continue
+                    cases.append({"tree": S(cls, text), "path": [], "soup": None, "fmt": spec, "entry": entry, "level": None})
+    ctx.count("lone_string_cases", len(cases))
+    check_render(ctx, cases, "parentless-string")
+    return cases
+
+
 def meta_grid(ctx):
     """Parsed documents whose <meta> tags declare an encoding (the stored attribute values are the charset placeholder
     classes) x every kind of formatter x with / without / other output encoding. The value written is the formatter's
@@ -824,6 +944,7 @@ def meta_grid(ctx):
     specs += [{"way": "object", "cls": c, "kw": ({} if f == "omit" else {"entity_substitution": f})}
               for c in ("Formatter", "HTMLFormatter", "XMLFormatter") for f in (["custom", 1], ["lib", "xml"], "omit")]
     entries = [("decode", {}), ("decode", {"eventual": None}), ("decode", {"eventual": "iso-8859-1"}), ("encode", {}),
+               ("prettify_enc", {}), ("prettify_enc", {"encoding": "utf-16"}),
                ("encode", {"encoding": "utf-16"}), ("prettify", {}), ("decode_contents", {"eventual": "windows-1252"}),
                ("encode_contents", {})]
     cases = []
@@ -923,28 +1044,45 @@ def random_cases(ctx, n):
             c = {"soup": {"markup": mk, "xml": xml}, "path": []}
             root, _ = L.materialise(c)
             c["tree"] = L.describe(root)
+        elif r < 0.18:
+            c = {"soup": None, "tree": gen_tree(rng, 0, "mixed")}          # a string that is in no tree at all
         else:
             c = {"soup": None, "tree": gen_elem(rng, rng.choice([1, 2, 2, 3, 4]), rng.choice(["html", "xml", "mixed", "mixed"]))}
         paths = list(all_paths(c["tree"]))
         path, node = rng.choice(paths) if rng.random() < 0.5 else paths[0]
         c["fmt"] = gen_spec(rng)
+        if not c.get("soup") and path and rng.random() < 0.2:
+            # a history: the node is rendered / copied where it is, then moved to a tree of another flavour (or just
+            # extracted), then rendered; the formatter must be the one of the tree it is in now
+            b = gen_elem(rng, 2, rng.choice(["html", "xml"]))
+            dests = [pp for pp, nn in all_paths(b) if nn["k"] == "e"]
+            dp = rng.choice(dests)
+            how = rng.choice(["extract", "append", "append", "replace"])
+            if how == "replace" and not node_at(b, dp)["kids"]:
+                how = "append"
+            first = rng.choice([None, {"action": "copy"}, {"action": "render", "fmt": gen_spec(rng), "level": None,
+                                                              "entry": "str_output_ready" if node["k"] == "s" else "decode"}])
+            tree2, path2, h = make_history({"tree": c["tree"]}, path, how, {"tree": b}, dp, first)
+            c = {"soup": None, "tree": tree2, "fmt": c["fmt"], "_history": h}
+            path = path2
         if node["k"] == "s":
             c["path"] = path
-            c["entry"] = "str_output_ready"
+            c["entry"] = rng.choice(STR_ENTRIES)
             c["level"] = None
-            if rng.random() < 0.15:
+            if rng.random() < 0.15 and c["entry"] != "str_substitute":
                 c["fmt"] = None
         else:
             c["path"] = path
-            c["entry"] = rng.choice(["decode", "decode", "prettify", "prettify", "decode_contents", "encode", "encode_contents"])
-            c["level"] = rng.choice([None, None, 0, 1, 2, -1]) if c["entry"] != "prettify" else None
+            c["entry"] = rng.choice(["decode", "decode", "prettify", "prettify", "decode_contents", "encode", "encode_contents",
+                                     "prettify_enc"])
+            c["level"] = rng.choice([None, None, 0, 1, 2, -1]) if c["entry"] not in ("prettify", "prettify_enc") else None
             xml_root = bool(c.get("soup")) and c["soup"]["xml"] and not path     # the XML declaration names the encoding too
             if not xml_root and rng.random() < 0.3:
                 if c["entry"] in ("decode", "decode_contents"):
                     c["eventual"] = rng.choice([None, "iso-8859-1", "utf-8", "koi8-r"])
-                elif c["entry"] in ("encode", "encode_contents"):
+                elif c["entry"] in ("encode", "encode_contents", "prettify_enc"):
                     c["encoding"] = "utf-16"
-        if not c.get("soup") and not c["path"] and rng.random() < 0.1:
+        if not c.get("soup") and not c["path"] and not c.get("_history") and rng.random() < 0.1:
             c["top_is_xml"] = True
         cases.append(c)
     return cases
@@ -1121,6 +1259,8 @@ def run(ctx):
         scope_nodes = small_scope(ctx)
         case_cases = case_grid(ctx)
         meta_cases = meta_grid(ctx)
+        move_cases = move_grid(ctx)
+        lone_cases = lone_strings(ctx)
         attribute_orders(ctx)
         strs = alternation(ctx)
         rnd = random_cases(ctx, 40000 if ctx.thorough else 3000)
@@ -1133,7 +1273,7 @@ def run(ctx):
         tw_cases = []
         for c, r in zip(rnd, impl):
             t = permuted_twin(ctx.rng, c)
-            if t is None or c.get("soup"):
+            if t is None or c.get("soup") or c.get("_history"):
                 continue
             twins += 1
             r2 = L.run_case(t)
@@ -1144,7 +1284,7 @@ def run(ctx):
                          "output depends on attribute insertion order", r2["out"], r["out"], tag="insertion-order")
         ctx.count("insertion_order_twins", twins)
         n = 4000 if ctx.thorough else 300
-        sample = corpus + ctx.rng.sample(probe, min(len(probe), n)) + rnd[:n] + tw_cases[:n // 3] + case_cases[::7] + meta_cases[::11]
+        sample = corpus + ctx.rng.sample(probe, min(len(probe), n)) + rnd[:n] + tw_cases[:n // 3] + case_cases[::7] + meta_cases[::11] + move_cases[::13] + lone_cases[::9]
         subprocess_seeds(ctx, sample, strs[:4000] if ctx.thorough else strs[:1500])
         if ctx.tier == "thorough" and not ctx.search_mode:
             run_coqchk(ctx)
@@ -1164,6 +1304,11 @@ def replay(ctx, data):
         r = L.run_case(case)
         e = expected_for(case)
         print("formatter=%r entry=%s level=%r path=%r" % (case["fmt"], case["entry"], case.get("level"), case["path"]))
+        if case.get("_history"):
+            h = case["_history"]
+            print("history: element at %r of tree a %s, then %s%s; rendered where it is now" % (
+                h["path"], "first %s there" % (h["first"] or {}).get("action") if h.get("first") else "untouched",
+                h["how"], " into tree b at %r" % h.get("dest_path") if h.get("b") else ""))
         print("implementation:", json.dumps(r, ensure_ascii=True))
         print("documented:    ", json.dumps(e, ensure_ascii=True))
         return 1 if (r["out"], r["exc"]) != (e["out"], e["exc"]) else 0
